@@ -93,6 +93,15 @@ package seccomp
 //@   ensures @frame p.nextLabel == old(p.nextLabel) && p.labels == old(p.labels) && p.jumps == old(p.jumps)
 //@   ensures @fresh fresh(old(p)) ==> fresh(p)
 
+//@ func (p *Program) ldSyscallNum()   properties C03 C05
+//@   requires p != nil
+//@   modifies p
+//@   ghost p.G = stepLd(p.G, unbox(p.instructions[len(p.instructions)-1], bpf.LoadAbsolute).Off) at exit
+//@   ensures @sem {C03} p.G == mkG(g_live(old(p.G)), ite(g_live(old(p.G)), ev_nr(ev), g_A(old(p.G))), g_done(old(p.G)), g_rval(old(p.G)), g_taken(old(p.G)), g_tA(old(p.G)))
+//@   ensures @insn {C05} len(p.instructions) == len(old(p.instructions)) + 1 && validLoad(p.instructions[len(p.instructions)-1])
+//@   ensures @frame p.nextLabel == old(p.nextLabel) && p.labels == old(p.labels) && p.jumps == old(p.jumps)
+//@   ensures @fresh fresh(old(p)) ==> fresh(p)
+
 //@ func (p *Program) LdLo(arg uint32)   properties C02 C05
 //@   requires p != nil
 //@   requires @arg_le_5 arg <= 5
@@ -172,6 +181,7 @@ package seccomp
 //@     invariant @done g_done(p.G) == g_done(G0) && g_rval(p.G) == g_rval(G0)
 //@     invariant @sem {C03} pre && sem ==> (g_taken(p.G)[action] == (g_taken(G0)[action] || (hdr && anyList(s, k))) && g_taken(p.G)[nextSyscall] == !hdr && g_live(p.G) == (hdr && !anyList(s, k)))
 //@     invariant @dead !g_live(G0) ==> !g_live(p.G) && g_taken(p.G)[action] == g_taken(G0)[action] && !g_taken(p.G)[nextSyscall]
+//@     invariant @next_A {C03} pre && g_taken(p.G)[nextSyscall] ==> g_tA(p.G)[nextSyscall] == ev_nr(ev)
 //@   loop 2 binder i
 //@     invariant @struct p != nil && nonnil(p.labels) && p.nextLabel >= noMatch && noMatch >= N0 + 3
 //@     invariant @fresh fresh(p)
@@ -180,4 +190,5 @@ package seccomp
 //@     invariant @nomatch {C02 C03} pre && sem ==> g_taken(p.G)[noMatch] == (hdr && !anyList(s, k) && !allHoldUpTo(conditions, i))
 //@     invariant @action {C02 C03} pre && sem ==> g_taken(p.G)[action] == (g_taken(G0)[action] || (hdr && anyList(s, k)) || (hdr && !anyList(s, k) && i == len(conditions) && allHoldUpTo(conditions, i)))
 //@     invariant @next pre && sem ==> g_taken(p.G)[nextSyscall] == !hdr
+//@     invariant @next_A {C03} pre && g_taken(p.G)[nextSyscall] ==> g_tA(p.G)[nextSyscall] == ev_nr(ev)
 //@     invariant @dead !g_live(G0) ==> !g_live(p.G) && g_taken(p.G)[action] == g_taken(G0)[action] && !g_taken(p.G)[nextSyscall] && !g_taken(p.G)[noMatch]
